@@ -180,8 +180,14 @@ theorem parallel_results_in_branch_order (env : Env) (fuel : Nat) (bs : List Jso
           rcases rest with a | vs'
           · cases a <;> simp at h
           · simp at h
-        | fuel => cases rest <;> simp at h
-        | unsupported w => cases rest <;> simp at h
+        | fuel =>
+          rcases rest with a | vs'
+          · cases a <;> simp at h
+          · simp at h
+        | unsupported w =>
+          rcases rest with a | vs'
+          · cases a <;> simp at h
+          · simp at h
       · simp at h
 
 /-- Map yields the iteration outputs in item order, iteration k seeing item k (through the
@@ -242,8 +248,14 @@ theorem map_results_in_item_order (env : Env) (fuel : Nat) (proc : Json) (sel : 
           rcases rest with a | vs'
           · cases a <;> simp at h
           · simp at h
-          | fuel => cases rest <;> simp at h
-          | unsupported w => cases rest <;> simp at h
+          | fuel =>
+            rcases rest with a | vs'
+            · cases a <;> simp at h
+            · simp at h
+          | unsupported w =>
+            rcases rest with a | vs'
+            · cases a <;> simp at h
+            · simp at h
         · simp at h
 
 /-- Choice (with the comparison fragment of `Lite`): the rules are tried in array order and the
